@@ -242,12 +242,15 @@ func (s *Server) blobUploadPost(repoStr string) http.HandlerFunc {
 		repo.Done()
 		if err != nil {
 			if errors.Is(err, types.ErrBlobExists) {
-				// blob exists, the content of this request still has to match the digest it declares
-				if bd, err := d.Algorithm().FromReader(r.Body); err != nil || bd != d {
-					w.WriteHeader(http.StatusBadRequest)
-					_ = types.ErrRespJSON(w, types.ErrInfoBlobUploadInvalid("digest mismatch"))
-					s.log.Debug("failed to verify blob digest", "repo", repoStr, "digest", d.String(), "err", err)
-					return
+				// blob exists, the content of a monolithic upload still has to match the digest it declares
+				// (a failed mount falls through to here without content)
+				if dStr != "" {
+					if bd, err := d.Algorithm().FromReader(r.Body); err != nil || bd != d {
+						w.WriteHeader(http.StatusBadRequest)
+						_ = types.ErrRespJSON(w, types.ErrInfoBlobUploadInvalid("digest mismatch"))
+						s.log.Debug("failed to verify blob digest", "repo", repoStr, "digest", d.String(), "err", err)
+						return
+					}
 				}
 				// indicate it was created and return the location to get
 				loc, err := url.JoinPath("/v2", repoStr, "blobs", d.String())
